@@ -293,6 +293,20 @@ def coqc_props(pid):
                 rc=r.returncode, printed=printed, missing=False)
 
 
+def coqchk(mods):
+    """independent re-check of the compiled files of the given Props modules (and everything they depend on)
+    with coqchk; returns (ok, summary)"""
+    mods = [m for m in mods if os.path.exists(os.path.join(COQ, "Props", m + ".vo"))]
+    if not mods:
+        return True, "no compiled Props module"
+    r = sh(["timeout", "3000", "coqchk", "-o", "-silent", "-Q", "Model", "Sodium", "-Q", "Spec", "Sodium", "-Q", "Proofs",
+            "Sodium", "-Q", "Props", "Sodium"] + ["Sodium." + m for m in mods], cwd=COQ, timeout=3100)
+    out = r.stdout + r.stderr
+    ok = (r.returncode == 0 and "* Axioms: <none>" in out and "type-in-type: <none>" in out
+          and "unsafe (co)fixpoints: <none>" in out and "positivity is assumed: <none>" in out)
+    return ok, " ".join(out.split())[-400:]
+
+
 # ---------------------------------------------------------------- results
 
 def write_replay(pid, tag, files):
